@@ -37,20 +37,20 @@ type pinfo struct {
 	dropped bool
 }
 type label struct {
-	kind          string
-	r, t          string
-	c             int64
-	cname, ch     string
-	p, op, tg     *pinfo
-	info          *meta.TaskInfo
-	pos           *meta.TaskCollectionPosition
-	newState      int
-	olds          []int
-	reason        string
-	fail          string
-	key           string
-	tok           int
-	pfx           bool
+	kind      string
+	r, t      string
+	c         int64
+	cname, ch string
+	p, op, tg *pinfo
+	info      *meta.TaskInfo
+	pos       *meta.TaskCollectionPosition
+	newState  int
+	olds      []int
+	reason    string
+	fail      string
+	key       string
+	tok       int
+	pfx       bool
 }
 
 func (p *pinfo) meta() *meta.PositionInfo {
